@@ -916,7 +916,10 @@ def g_inp(inp):
 
 
 def core_stream(ctx, items, stats):
+    import time
+    t0 = time.time()
     results = common.pmap(_core_task, items, chunksize=2)
+    stats['t_jedi_exec_s'] = stats.get('t_jedi_exec_s', 0) + round(time.time() - t0, 1)
     defs = [DEFS]
     ev_cases, ev_meta = [], []
     ff_cases, ff_meta = [], []
@@ -995,7 +998,9 @@ def core_stream(ctx, items, stats):
             ('eval', 'chk_eval', ev_cases, ev_meta, 'Coq eval (concrete semantics) vs CPython'),
             ('first_fail', 'chk_fail', ff_cases, ff_meta, 'Coq first_fail (which statement raises) vs CPython'),
             ('ainfer', 'chk_infer', in_cases, in_meta, 'Coq ainfer (abstract evaluator) vs Script.infer')):
+        t0 = time.time()
         fails, err = common.coq_failing(IMPORTS, fn, cases, shard=600, defs=alldefs, timeout=1200)
+        stats['t_coq_%s_s' % name] = stats.get('t_coq_%s_s' % name, 0) + round(time.time() - t0, 1)
         if err:
             raise RuntimeError('coq evaluation failed (%s): %s' % (name, err))
         stats['coq_' + name + '_cases'] = stats.get('coq_' + name + '_cases', 0) + len(cases)
